@@ -108,7 +108,7 @@ func Image(t *rapid.T, o Opts) bt.Image {
 		o.PageSizes = []int{512, 512, 512, 1024, 4096}
 	}
 	u := rapid.SampledFrom(o.PageSizes).Draw(t, "ps")
-	img := bt.Image{PageSize: u, Layout: Layout(t), Master: fmtb.TreeOpts{LeafCells: rapid.SampledFrom([]int{0, 0, 1}).Draw(t, "masterleaf")}}
+	img := bt.Image{PageSize: u, Layout: Layout(t), Master: fmtb.TreeOpts{LeafCells: rapid.SampledFrom([]int{0, 0, 1}).Draw(t, "masterleaf"), KeylessRoot: rapid.IntRange(0, 5).Draw(t, "keylessroot") == 0}}
 	// mostly the current schema format; sometimes an older one, in which DESC
 	// in index definitions is ignored (everything is stored ascending)
 	img.Header.SchemaFormat = rapid.SampledFrom([]uint32{0, 0, 0, 0, 4, 3, 2}).Draw(t, "schemaformat")
